@@ -60,10 +60,12 @@ func alphabet(quick bool) []refcodec.Msg {
 			}
 		}
 		a = append(a, rawpeer.Twalkgetattr(0, f, (f+1)%uint32(len(fids)), "d"), rawpeer.Twalkgetattr(0, f, f, "x"))
-		for _, mode := range []uint32{0, 1, 2} {
+		// open modes incl. flag bits beyond the two mode bits (Linux clients
+		// send O_TRUNC, O_EXCL, O_LARGEFILE ... along with the mode)
+		for _, mode := range []uint32{0, 1, 2, 0x201, 0x8000} {
 			a = append(a, rawpeer.Tlopen(0, f, mode))
 		}
-		a = append(a, rawpeer.Tlcreate(0, f, "a", 2), rawpeer.Tlcreate(0, f, "x", 0))
+		a = append(a, rawpeer.Tlcreate(0, f, "a", 2), rawpeer.Tlcreate(0, f, "x", 0), rawpeer.Tlcreate(0, f, "a", 0x241), rawpeer.Tlcreate(0, f, "a", 0x80))
 		a = append(a, rawpeer.Tread(0, f, 0, 4), rawpeer.Tread(0, f, 1, 1), rawpeer.Twrite(0, f, 0, []byte("W")), rawpeer.Twrite(0, f, 1, []byte("Z")))
 		a = append(a, rawpeer.Treaddir(0, f, 0, 4000), rawpeer.Tfsync(0, f), rawpeer.Tclunk(0, f), rawpeer.Tremove(0, f))
 		a = append(a, rawpeer.Tmkdir(0, f, "a"), rawpeer.Tsymlink(0, f, "a", "f"), rawpeer.Tmknod(0, f, "a", 0o10644))
